@@ -277,6 +277,40 @@ CHECKS['C14'] = dict(
     assumptions=['herumi BLS is trusted'],
 )
 
+CHECKS['C10'] = dict(
+    pkg='c10', level='exploration', needs_dirk=True,
+    technique='model-based property testing through the real dirk binary: rapid-generated histories of own signing, interchange-file imports (grammar with repeated keys, mixed newer/older fields, malformed numbers/keys, wrong metadata) and restarts; oracle per-key floor model + monotone export',
+    level_text=('State machine over one storage directory: own approved history through the real rules service, `dirk --import-slashing-protection` runs of the freshly built binary on '
+                'generated interchange files (1-4 entries over 3 keys so that repeats are common, 0-3 blocks and attestations each with numbers below/equal/above the current floors per field, '
+                'malformed numbers and keys, metadata variants), restarts. After every import that exits 0 on a well-formed file every key is probed through the rules service: a proposal '
+                'at or below the highest slot on record (own history or any successfully imported file) and attestations at or below the highest target / below the highest source must be refused. '
+                'After every step the export is component-wise >= the previous one; files with a wrong version, a different root or no metadata must exit non-zero and change nothing.'),
+    level_note='For files with malformed numbers or keys only "never lowered" is required (the statement asks nothing more). The binary is rebuilt from /repo with -tags verif for every run.',
+    parts=[part('TestC10', 120, 1200, qshards=4)],
+    rule=('a case is a history of 1-10 steps; non-trivial iff some successfully imported well-formed entry was newer than the database in one field and older in another, or a file named one key twice; '
+          'distinct = sha256 of the case JSON'),
+    essential=['imports-exit-0-wellformed', 'entry-newer-in-one-field-older-in-another', 'file-names-a-key-twice', 'metadata-rejections', 'malformed-file-exit-0',
+               'first-import-into-empty-db', 'import-after-restart', 'probes'],
+    assumptions=['the interchange merge logic lives in package main and is reached only through the binary'],
+)
+
+CHECKS['C11'] = dict(
+    pkg='c10', level='exploration', needs_dirk=True,
+    technique='property-based testing: rapid-generated signing histories, oracle export == maxima of approved requests, round trip (rules API and real CLI files) into an empty twin with differential probing, restart, and stores pre-populated with old-format gob records',
+    level_text=('Histories of advancing and refused attestation/proposal requests over 1-3 keys (one key restricted to a single kind) through the real rules service; the rules-level export and '
+                '`dirk --export-slashing-protection` (stdout and file) must state exactly the highest approved slot/source/target per key that signed; the export is imported into an empty instance '
+                '(rules API, or the binary importing the binary\'s own export file) and both twins answer a probe sequence around the watermarks identically, ending in identical state; a clean '
+                'shutdown and reopen leaves the export unchanged. Stores written with gob encodings of the old record structs (values 0, 1, 127, 128, 255, 256, 65535, 2^31, 2^62+5, random) '
+                'must export those values, refuse at/below them and approve advancing requests.'),
+    level_note='Keys that never signed are not constrained (the batch path legitimately writes "none" records); all-minus-one entries are dropped before comparing exports.',
+    parts=[part('TestC11', 250, 2500, qshards=2), part('TestC11Legacy', 150, 1500, qshards=1, tshards=4)],
+    rule=('history cases are non-trivial iff >= 2 keys signed, one of them only proposals or only attestations, and some probe was refused on both twins; legacy cases iff a stored value is non-zero; '
+          'distinct = sha256 of the case JSON'),
+    essential=['round-trip-through-cli-files', 'round-trip-through-rules-api', 'probes-refused-on-both-twins', 'probes-approved-on-both-twins',
+               'keys-with-only-proposals-or-only-attestations', 'legacy-non-zero-value', 'legacy-zero-value'],
+    assumptions=['old-format records are gob encodings of struct{SourceEpoch,TargetEpoch int64} / struct{Slot int64}, as the Decode fallback reads them'],
+)
+
 ENGINES = [
     dict(name='rapid-harness', path='/verif/harness', kind_free_text='Go test module (pgregory.net/rapid v1.3.0) compiled against /repo with -tags verif; driver /verif/check shards by seed, merges coverage, writes evidence',
          serves_properties=sorted(CHECKS)),
